@@ -649,6 +649,21 @@ func (w *world) doTx(st *simkit.Step) bool {
 		tx.Value = big.NewInt(0)
 	}
 
+	// ---- prediction from the inputs: is this "a failure for insufficient funds"? ----
+	// Asserted only where every reading of "fee" in the statement agrees: the nonce is the account nonce, the real
+	// economicsData accepts gas price / gas limit / value, the balance covers the fee a failed transaction is charged
+	// (ComputeTxFee, the one checkTxValues compares first) but not value + the smallest fee (ComputeMoveBalanceFee).
+	// Balances between value+moveFee and value+gasLimit*gasPrice depend on which fee the epoch flags put into the
+	// cost and are left unasserted; balance < fee, wrong nonce or invalid gas are plain rejections (nothing can be charged).
+	minFee := moveFee
+	if txFee.Cmp(minFee) < 0 {
+		minFee = txFee
+	}
+	predictedInsufficientFunds := tx.Nonce == ms.nonce &&
+		w.econ.CheckValidityTxValues(tx) == nil &&
+		ms.bal.Cmp(txFee) >= 0 &&
+		ms.bal.Cmp(new(big.Int).Add(tx.Value, minFee)) < 0
+
 	// ---- what the block processor does around one transaction ----
 	snapshot := w.adb.JournalLen()
 	firedBefore := c.Faults["get_error"]
@@ -682,6 +697,20 @@ func (w *world) doTx(st *simkit.Step) bool {
 	}
 	c.Eventf("tx %d->%d value=%s price=%d limit=%d(required %d) data=%d nonce=%d(account %d) fault=%v => %s (%s)",
 		snd, rcv, tx.Value, tx.GasPrice, tx.GasLimit, required, len(tx.Data), tx.Nonce, ms.nonce, fired, class, errClass(err))
+
+	if predictedInsufficientFunds {
+		c.Probe("predicted_insufficient_funds")
+		if snd == rcv {
+			c.Probe("predicted_insufficient_funds_self_transfer")
+		}
+		// under a fired read fault the transaction may also be rejected as a whole (then nothing may change: checked below)
+		if class != "charged" && !(fired && class == "rejected") {
+			c.Violate("C23", "insufficient-funds-not-charged", class,
+				"sender %d (receiver %d) has the transaction's nonce %d, valid gas settings, balance %s >= fee %s but < value %s + fee %s: the statement demands a failure that charges only the fee and advances the nonce, the outcome was %s (%s)",
+				snd, rcv, tx.Nonce, ms.bal, txFee, tx.Value, minFee, class, errClass(err))
+			return true
+		}
+	}
 
 	// ---- expected state from the reference model ----
 	exp := make([]acct, nAcc)
